@@ -5,20 +5,23 @@ EXTENDS Naturals, Sequences
 
 CONSTANTS Alphabet, MaxLen
 
-VARIABLES g, c            \* g: token string, c: Class(g)
+VARIABLES g, c, cx        \* g: token string, c: its classification in the HTML dialect, cx: in the XML dialect
 
-H == INSTANCE HtmlSkip WITH Deviations <- {}, toks <- <<>>, cdata <- "", h <- [skip |-> 0, tag |-> ""], out <- {}
+H == INSTANCE HtmlSkip WITH Deviations <- {}, toks <- <<>>, cdata <- "", h <- [skip |-> 0, tag |-> "", body |-> FALSE, dead |-> FALSE], out <- {}
 
 AlphaQ1 == H!AlphaQ1
 AlphaQ2 == H!AlphaQ2
 AlphaQ3 == H!AlphaQ3
 AlphaQ4 == H!AlphaQ4
+AlphaQ5 == H!AlphaQ5
+AlphaQ6 == H!AlphaQ6
 AlphaT  == H!AlphaT
 AlphaT2 == H!AlphaT2
 
-Init == g = <<>> /\ c = <<>>
+Init == g = <<>> /\ c = <<>> /\ cx = <<>>
 Next == \E t \in Alphabet : /\ Len(g) < MaxLen
                             /\ g' = Append(g, t)
-                            /\ c' = H!Class(g')
-Spec == Init /\ [][Next]_<<g, c>>
+                            /\ c' = H!ClassX(g', FALSE)
+                            /\ cx' = H!ClassX(g', TRUE)
+Spec == Init /\ [][Next]_<<g, c, cx>>
 =============================================================================
